@@ -39,7 +39,7 @@ package ast
 //@ -- ---------------------------------------------------------------- node lists
 //@ -- a list of alternatives is non-empty, flat, holds well-formed nodes and starts at the beginning of its array
 //@ -- (lists are only ever built by literals, append and nl[:len:len], none of which moves the start)
-//@ pure func wfList(nl NodeList) bool = len(nl) >= 1 && offset(nl) == 0 && forall k int :: 0 <= k && k < len(nl) ==> nl[k] != nil && !typeis[NodeList](nl[k]) && parsley.NodeOK(nl[k])
+//@ pure func wfList(nl NodeList) bool = len(nl) >= 1 && len(nl) <= cap(nl) && array(nl) != 0 && offset(nl) == 0 && forall k int :: 0 <= k && k < len(nl) ==> nl[k] != nil && !typeis[NodeList](nl[k]) && parsley.NodeOK(nl[k])
 //@ specmethod (nl NodeList) NodeOK() (r bool) = wfList(nl)
 //@ specmethod (nl NodeList) ListSpare() (r int) = cap(nl) - len(nl)
 //@ specmethod (nl NodeList) ListArr() (r int) = array(nl)
@@ -77,7 +77,7 @@ package ast
 //@ func (nl *NodeList) Append(node parsley.Node)
 //@   requires nl != nil && wfList(*nl) && node != nil && parsley.NodeOK(node)
 //@   requires [perm;C07] cap(*nl) > len(*nl) ==> parsley.GhostSpare(array(*nl))
-//@   ensures  [perm;C07] cap(*nl) > len(*nl) ==> parsley.GhostSpare(array(*nl))
+//@   ensures  [perm;C07] (cap(*nl) > len(*nl) || fresh(*nl)) ==> parsley.GhostSpare(array(*nl))
 //@   ensures  [perm-frame;C07] forall a int :: !freshid(a) ==> parsley.GhostSpare(a) == old(parsley.GhostSpare(a))
 //@   ensures  [alt-frame;C07] forall x parsley.Node, k int :: parsley.ListArr(x) == 0 || (!freshid(parsley.ListArr(x)) && !old(parsley.GhostSpare(parsley.ListArr(x)))) ==> same(parsley.Alt(x, k), old(parsley.Alt(x, k)))
 //@   ghost_return when fresh(*nl) :: parsley.GhostSpare(array(*nl)) = true
@@ -89,7 +89,7 @@ package ast
 //@   ensures  [within] old(within(*nl)) && old(within(node)) ==> within(*nl)
 //@   assigns  *nl, cells(*nl, len(*nl), cap(*nl)), parsley.GhostSpare
 //@ loop 1 (k rangeindex, v NodeList)
-//@   invariant [perm] (cap(*nl) > len(*nl) ==> parsley.GhostSpare(array(*nl))) && forall a int :: !freshid(a) ==> parsley.GhostSpare(a) == old(parsley.GhostSpare(a))
+//@   invariant [perm] ((cap(*nl) > len(*nl) || fresh(*nl)) ==> parsley.GhostSpare(array(*nl))) && forall a int :: !freshid(a) ==> parsley.GhostSpare(a) == old(parsley.GhostSpare(a))
 //@   invariant [alt-frame] forall x parsley.Node, j int :: parsley.ListArr(x) == 0 || (!freshid(parsley.ListArr(x)) && !old(parsley.GhostSpare(parsley.ListArr(x)))) ==> same(parsley.Alt(x, j), old(parsley.Alt(x, j)))
 //@   invariant 0 <= k && k <= len(v)
 //@   invariant wfList(*nl) && len(*nl) >= old(len(*nl))
@@ -105,7 +105,9 @@ package ast
 //@ func AppendNode(n1 parsley.Node, n2 parsley.Node) (r parsley.Node)
 //@   requires (n1 != nil ==> parsley.NodeOK(n1)) && (n2 != nil ==> parsley.NodeOK(n2))
 //@   requires [perm;C07] n1 != nil && n2 != nil && parsley.ListSpare(n1) > 0 ==> parsley.GhostSpare(parsley.ListArr(n1))
-//@   ensures  [perm;C07] n1 != nil && n2 != nil && parsley.ListSpare(r) > 0 ==> parsley.GhostSpare(parsley.ListArr(r))
+//@   ghost_return when n1 != nil && n2 != nil && parsley.ListArr(r) != 0 && freshid(parsley.ListArr(r)) :: parsley.GhostSpare(parsley.ListArr(r)) = true
+//@   ensures  [perm;C07] n1 != nil && n2 != nil && (parsley.ListSpare(r) > 0 || freshid(parsley.ListArr(r))) ==> parsley.GhostSpare(parsley.ListArr(r))
+//@   ensures  [len;C07] n1 != nil && n2 != nil && typeis[NodeList](n1) && parsley.ListArr(r) == parsley.ListArr(n1) ==> parsley.NAlts(r) >= parsley.NAlts(n1) && parsley.NAlts(r) + parsley.ListSpare(r) == parsley.NAlts(n1) + parsley.ListSpare(n1)
 //@   ensures  [perm-frame;C07] forall a int :: !freshid(a) ==> parsley.GhostSpare(a) == old(parsley.GhostSpare(a))
 //@   ensures  [alt-frame;C07] forall x parsley.Node, k int :: parsley.ListArr(x) == 0 || (!freshid(parsley.ListArr(x)) && !old(parsley.GhostSpare(parsley.ListArr(x)))) ==> same(parsley.Alt(x, k), old(parsley.Alt(x, k)))
 //@   ensures  [nil1] n1 == nil ==> same(r, n2)
